@@ -72,3 +72,26 @@ Fixpoint while_loop {S : Type} (fuel : nat) (cond : S -> bool) (body : S -> read
 Definition tup4_get {A} (t : A * A * A * A) (i : Z) : res A :=
   let '(a, b, c, d) := t in
   if i =? 0 then Ok a else if i =? 1 then Ok b else if i =? 2 then Ok c else if i =? 3 then Ok d else Panic PIndex.
+
+(* `for (i, (a, b)) in xs.iter().zip(ys.iter()).enumerate() { body }` over a state *)
+Fixpoint for_zip_enum {A B S : Type} (body : Z -> A -> B -> S -> res S) (la : list A) (lb : list B) (i : Z) (s : S) : res S :=
+  match la, lb with
+  | a :: la', b :: lb' => let* s' := body i a b s in for_zip_enum body la' lb' (i + 1) s'
+  | _, _ => Ok s
+  end.
+
+(* `&v[from..]`: panics when `from` is past the end *)
+Definition slice_from {A} (l : list A) (from : Z) : res (list A) :=
+  if (0 <=? from) && (from <=? zlength l) then Ok (skipn (Z.to_nat from) l) else Panic PIndex.
+
+(* `v.resize(n, x)` *)
+Definition vec_resize {A} (l : list A) (n : Z) (x : A) : list A :=
+  if n <=? zlength l then firstn (Z.to_nat n) l else l ++ repeatZ x (n - zlength l).
+
+(* equality of two optional pairs of integers (Option<(u16, u16)> == Option<(u16, u16)>) *)
+Definition opt_pair_eqb (a b : option (Z * Z)) : bool :=
+  match a, b with
+  | Some (x, y), Some (x', y') => (x =? x') && (y =? y')
+  | None, None => true
+  | _, _ => false
+  end.
